@@ -336,6 +336,14 @@ fn handle_one_request(
         Err(_) => return Ok(false), // silently drop connection on eof / io-error
     };
 
+    // RFC 9112 6.3: a request whose final transfer coding is not chunked has no known length
+    if let Some(last) = request.headers.get_transfer_encoding().last() {
+        if !last.eq_ignore_ascii_case(b"chunked") {
+            response.send0(&Status::BAD_REQUEST, Headers::close())?;
+            return Ok(false);
+        }
+    }
+
     if let Some(hook) = &config.pre_routing_hook {
         match (hook)(&mut request, response) {
             PreRoutingAction::Proceed => {}
